@@ -112,6 +112,27 @@ static std::string handle(const std::vector<std::string>& a) {
             }
             return "ok n=" + std::to_string(ums.size());
         }
+        if (op == "pre" && a.size() >= 3) {
+            // predecessor position of one un-move "uci:cap:castle:ep" (tie of Chess.unmake to Position::unMakeMove)
+            Position Q = TextIO::readFEN(vFenOf(a, 2, a.size()));
+            std::vector<std::string> f;
+            { std::istringstream is(a[1]); std::string t; while (std::getline(is, t, ':')) f.push_back(t); }
+            if (f.size() != 4 || (f[0].size() != 4 && f[0].size() != 5)) return "bad-op";
+            Move m = TextIO::uciStringToMove(f[0]);
+            if (m.isEmpty() || m.from() == m.to()) return "bad-op";
+            int cap = (int)vToU64(f[1]), castle = (int)vToU64(f[2]);
+            if (cap > 12 || castle > 15) return "bad-op";
+            Square ep(-1);
+            if (f[3] != "-") {
+                if (f[3].size() != 2 || f[3][0] < 'a' || f[3][0] > 'h' || f[3][1] < '1' || f[3][1] > '8') return "bad-op";
+                ep = Square(f[3][0] - 'a', f[3][1] - '1');
+            }
+            UndoInfo ui { cap, castle, ep, 0 };
+            Position P(Q);
+            P.unMakeMove(m, ui);
+            P.setHalfMoveClock(0); P.setFullMoveCounter(1);
+            return TextIO::toFEN(P);
+        }
         if (op == "tri" && a.size() >= 3) {
             Position P = TextIO::readFEN(vFenOf(a, 2, a.size()));
             Move m = TextIO::uciStringToMove(a[1]);
